@@ -86,7 +86,7 @@ _BUILTINS = {"len": len, "chr": chr, "ord": ord, "bytes": bytes, "bytearray": by
              "frozenset": frozenset, "set": set, "tuple": tuple, "list": list, "dict": dict, "str": str, "int": int,
              "min": min, "max": max, "sorted": sorted, "abs": abs, "bool": bool, "enumerate": enumerate, "zip": zip,
              "reversed": reversed, "divmod": divmod, "hex": hex, "isinstance": isinstance, "repr": repr, "sum": sum,
-             "any": any, "all": all, "float": float, "iter": iter, "next": next}
+             "any": any, "all": all, "float": float, "iter": iter, "next": next, "type": type}
 _TYPE_NAMES = {"bytes": bytes, "str": str, "int": int, "list": list, "tuple": tuple, "float": float, "bytearray": bytearray,
                "dict": dict, "set": set}
 _PURE_METHODS = {"startswith", "endswith", "replace", "strip", "lstrip", "rstrip", "find", "rfind", "index", "count", "join",
@@ -538,7 +538,12 @@ def eval_block(stmts: Sequence[ast.stmt], env: Dict[str, object], sink: Callable
                 except Exception as e:
                     raise BlockRaised(f"statement raises during finite evaluation: {src(st)[:80]} ({e!r})", e)
             else:
-                raise AnalysisError("block evaluation: unsupported call statement " + src(st))
+                try:
+                    peval(call, env, funcs)      # a whitelisted pure / modelled call used as a statement (result discarded)
+                except NotPure:
+                    raise AnalysisError("block evaluation: unsupported call statement " + src(st))
+                except Raised as e:
+                    raise BlockRaised(f"statement raises during finite evaluation: {src(st)[:80]} ({e})", e.exc)
         elif isinstance(st, ast.Delete) and all(src(t) in ignore for t in st.targets):
             continue
         elif isinstance(st, ast.Delete) and all(isinstance(t, ast.Subscript) for t in st.targets):
